@@ -38,7 +38,9 @@ def scenarios(quick):
               (T.remap_main(maxseq=1), 'SpecPrompt', 4 if quick else 40, 200, {}),
               (T.join_late(maxseq=3), 'SpecPrompt', 6 if quick else 80, 300, dict(max_faults=1, fault_kinds=['stall'], victims=['K'])),
               # blocking applications (timeout = None) with kills and lost messages
-              (T.blocking(T.chain3(maxseq=2, conn_ticks=3)), 'SpecPrompt', 6 if quick else 100, 200, dict(max_faults=2, fault_kinds=['kill', 'drop'], victims=['S', 'A', 'K']))],
+              (T.blocking(T.chain3(maxseq=2, conn_ticks=3)), 'SpecPrompt', 6 if quick else 100, 200, dict(max_faults=2, fault_kinds=['kill', 'drop'], victims=['S', 'A', 'K'])),
+              # a relay that returns a callable which yields None for the frames it skips, publisher killed and restarted
+              (T.chain3_lazyskip(maxseq=3, conn_ticks=3), 'SpecPrompt', 6 if quick else 80, 300, dict(max_faults=1, fault_kinds=['kill'], victims=['S']))],
         rand=[(T.chain3(maxseq=4, conn_ticks=3), 10 if quick else 200, 800, 0.08, 0.03, True),
               (T.tee_rejoin2(maxseq=4, conn_ticks=3, skip=()), 8 if quick else 150, 800, 0.05, 0.0, True),
               (T.hidden(maxseq=3), 6 if quick else 100, 500, 0.1, 0.05, False),
@@ -49,6 +51,37 @@ def scenarios(quick):
               # two replicas with the same filter id on one output (told apart by the connection uid), lost messages
               (T.same_id(T.tee(maxseq=4), ['A', 'B'], 'R'), 6 if quick else 100, 700, 0.05, 0.03, False)],
     )
+
+
+def lazy_none_kills(eng, rep, n):
+    """a relay whose deferred result turns out to be None (a callable that yields None) behind a slow producer: the producer is
+    killed (what is in flight is lost) right after the relay has dealt with such a frame, and started again"""
+    from .proto import SimPipeline
+    from .protocheck import run_schedule, finish_prompt
+    topo = topos.chain3_lazyskip(maxseq=12, conn_ticks=3)
+    topo.filters['A']['beh']['skip'] = [1, 3, 5, 7, 9]
+    topo.filters['S']['beh']['slow'] = True
+    for k in range(n):
+        rng = common.rng(eng.ctx, f'lazy-none-kill/{k}')
+        pipe = SimPipeline(topo, warn=k % 2 == 0)
+        try:
+            pipe.start()
+            want = [1, 3, 5, 7][k % 4]
+            for _ in range(4000):
+                d = pipe.delivered['A']
+                if d and d[-1]['id'] is not None and d[-1]['id'] >= want and d[-1]['id'] in topo.filters['A']['beh']['skip']:
+                    break
+                run_schedule(pipe, rng, 1, p_timeout=0.05, quiet=10 ** 9)
+            run_schedule(pipe, rng, 2 + (k // 4) * 3 % 14, p_timeout=0.0, quiet=10 ** 9)     # the relay goes back to recv()
+            pipe.kill('S', False)
+            pipe.restart('S')
+            finish_prompt(pipe, rng, 1500)
+            eng.judge_pipe(topo, pipe, {'kind': 'trace', 'topo': topo.name, 'topo_def': topo.to_dict(), 'seed': eng.ctx.seed,
+                                        'origin': f'producer killed right after the relay dealt with skipped id {want} (lazy None), restarted ({k})',
+                                        'pipekw': {'warn': k % 2 == 0}, 'trace': [list(t_) for t_ in pipe.world.trace]})
+        finally:
+            pipe.close()
+    print(f'  [faults] {topo.name}: {n} kills after a lazy None', flush=True)
 
 
 def kill_faults(rng, pipe):
@@ -220,6 +253,12 @@ def run(ctx):
         eng.random_runs(topo, n, steps, p_timeout=pt, p_drop=pd,
                         faults=late_join if faults == 'late' else kill_faults if faults else None, tag='rand',
                         validate=3 if ctx.quick else 25)
+    # a join with sources_timeout whose one source falls silent: what is delivered under an id was published under that id
+    def silence(rng, pipe):
+        a = rng.randrange(20, 120)
+        return [(a, lambda p: p.stall('Y')), (a + rng.randrange(200, 500), lambda p: p.resume('Y'))]
+    eng.random_runs(topos.join_timeout(maxseq=12, ticks=3), 4 if ctx.quick else 60, 2500, p_timeout=0.04, faults=silence, tag='silent-source')
+    lazy_none_kills(eng, rep, 16 if ctx.quick else 160)
     content_check(eng, rep, ctx, 18 if ctx.quick else 300)
     return rep.finish()
 
